@@ -61,9 +61,14 @@ pub mod fs {
         pub uninterp spec fn flags(&self) -> OpenFlags;
         /// the file's current content (files only grow: C14)
         pub open spec fn content(&self) -> Seq<u8> { content_of(self.file()) }
+        /// fsync.  `synced_ok(f)` is an uninterpreted fact that only a successful call of sync_all on file `f` provides: a function
+        /// whose postcondition demands it can only be proved if such a call lies on every path on which it returns Ok (C09)
         #[verifier::external_body]
-        pub fn sync_all(&self) -> (r: io::Result<()>) { unimplemented!() }
+        pub fn sync_all(&self) -> (r: io::Result<()>)
+            ensures r is Ok ==> synced_ok(self.file())
+        { unimplemented!() }
     }
+    pub uninterp spec fn synced_ok(file: int) -> bool;
     pub struct OpenOptions { pub ghost f: OpenFlags }
     impl OpenOptions {
         #[verifier::external_body]
